@@ -24,14 +24,16 @@ BagOfSeq(q) == [o \in ToSet(q) |-> Cardinality({k \in DOMAIN q : q[k] = o})]
 Fresh(x) == /\ sess' = SessOf(x)
             /\ st' = [e \in Ends |-> InitSt] /\ chan' = [e \in Ends |-> <<>>]
             /\ killed' = [s \in Sessions |-> FALSE] /\ pooled' = EmptyBag /\ nf' = 0 /\ resets' = resets
-            /\ recorded' = {} /\ verified' = {} /\ cmode' = cmode
+            /\ recorded' = {} /\ verified' = {} /\ cmode' = cmode /\ ackc' = ackc
+            /\ tpd' = [e \in Ends |-> FALSE] /\ sfaults' = [s \in Sessions |-> 0]
             /\ tampered' = [s \in Sessions |-> FALSE] /\ hist' = <<>>
 
 TraceInit == /\ l = 2 /\ drift = 0 /\ Trace[1].ev = "Config"
              /\ sess = SessOf(Trace[1])
              /\ st = [e \in Ends |-> InitSt] /\ chan = [e \in Ends |-> <<>>]
              /\ killed = [s \in Sessions |-> FALSE] /\ pooled = EmptyBag /\ nf = 0 /\ resets = AllFields
-             /\ recorded = {} /\ verified = {} /\ cmode = "none"
+             /\ recorded = {} /\ verified = {} /\ cmode = "none" /\ ackc = [over |-> 1, bad |-> 1]
+             /\ tpd = [e \in Ends |-> FALSE] /\ sfaults = [s \in Sessions |-> 0]
              /\ tampered = [s \in Sessions |-> FALSE] /\ hist = <<>>
 
 Is(e) == l <= Len(Trace) /\ Trace[l].ev = e
@@ -80,7 +82,7 @@ Resync ==
                          ELSE pooled
     /\ drift' = drift + 1
     /\ recorded' = IF X.ev = "Write" /\ X.ok /\ X.f.t = "cred" THEN recorded \cup {X.f} ELSE recorded
-    /\ UNCHANGED <<sess, killed, nf, tampered, hist, resets, verified, cmode>>
+    /\ UNCHANGED <<sess, killed, nf, tampered, hist, resets, verified, cmode, ackc, tpd, sfaults>>
 
 TraceNext == \/ Matching /\ l' = l + 1 /\ drift' = drift
              \/ Resync /\ l' = l + 1
